@@ -240,8 +240,8 @@ pub fn crash_check(prop: &str, suites: Vec<Suite>, accept: &[&str], plan: CrashP
         );
         if !r.complete {
             all_complete = false;
-            if r.max_depth_completed < 1 {
-                report.machinery(format!("suite {} hit its time cap before depth 1 completed", s.name));
+            if r.max_depth_completed < s.uncapped_levels {
+                report.machinery(format!("suite {} stopped before depth {} completed", s.name, s.uncapped_levels));
             }
         }
         for m in r.machinery {
